@@ -601,6 +601,150 @@ def challenge_default_stream(ctx, res, n):
             cc.reset_value(cfg, "auth.guest.password")
 
 
+def status_corners_stream(ctx, res):
+    """the state machine at its corners: (a) an assignment that hands a list / dict field the value it already holds — `cfg.x = cfg.x`,
+    `cfg.x += [...]`, `cfg.x |= {...}`, at the root and in a section — is a successful assignment: the field is user-defined
+    afterwards (and a reset puts the default back); (b) status and reset asked through a SUB-configuration whose own key is also
+    the key of one of its children (`node.node.port` next to `node.port`): the dotted key is relative to the configuration asked,
+    the named field is the one reported / reset and the other one is left alone; (c) a reset after the field was given the very
+    value its default describes (the default's own plaintext for a challenge field, an equal list, an equal number): not
+    user-defined afterwards, like after any other reset"""
+    import cincoconfig as cc
+    # (a)
+    for where in ("root", "section"):
+        for op in ("same-list", "iadd-list", "iadd-empty", "same-dict", "ior-dict", "ior-empty", "same-untyped-list", "same-untyped-dict", "slice-copy"):
+            s = cc.Schema()
+            h = s if where == "root" else s.sub
+            h.tags = cc.ListField(cc.StringField(), default=lambda: ["a"])
+            h.opts = cc.DictField(cc.StringField(), cc.IntField(), default=lambda: {"k": 1})
+            h.raw = cc.ListField(default=lambda: [1])
+            h.rawd = cc.DictField(default=lambda: {"k": 1})
+            h.other = cc.IntField(default=7)
+            cfg = s()
+            c = cfg if where == "root" else cfg.sub
+            key = {"same-list": "tags", "iadd-list": "tags", "iadd-empty": "tags", "slice-copy": "tags", "same-dict": "opts", "ior-dict": "opts", "ior-empty": "opts",
+                   "same-untyped-list": "raw", "same-untyped-dict": "rawd"}[op]
+            try:
+                if op == "same-list":
+                    c.tags = c.tags
+                elif op == "iadd-list":
+                    c.tags += ["b"]
+                elif op == "iadd-empty":
+                    c.tags += []
+                elif op == "slice-copy":
+                    c.tags = c.tags[:]
+                elif op == "same-dict":
+                    c.opts = c.opts
+                elif op == "ior-dict":
+                    c.opts |= {"j": 2}
+                elif op == "ior-empty":
+                    c.opts |= {}
+                elif op == "same-untyped-list":
+                    c.raw = c.raw
+                else:
+                    c.rawd = c.rawd
+            except Exception as e:  # noqa
+                res.case(None, kind="status-corners:assign-raised:%s" % type(e).__name__)
+                continue
+            case = {"stream": "status-corners", "what": "assigned-its-own-value", "where": where, "op": op}
+            res.case(stable(case), kind="status-corners:own-value")
+            dotted = key if where == "root" else "sub." + key
+            if not cc.is_value_defined(cfg, dotted):
+                res.violate("C12:assigned-not-defined", "a list / dict field was successfully assigned (its own value, or an augmented assignment) and is still reported as "
+                            "not user-defined", case)
+                continue
+            if cc.is_value_defined(cfg, "other" if where == "root" else "sub.other"):
+                res.violate("C12:status-of-other-field-changed", "the assignment changed the status of another field", case)
+            cc.reset_value(cfg, dotted)
+            fresh = s()
+            fc = fresh if where == "root" else fresh.sub
+            if cc.is_value_defined(cfg, dotted) or list(c[key]) != list(fc[key]) if key in ("tags", "raw") else dict(c[key]) != dict(fc[key]):
+                res.violate("C12:reset", "a reset after such an assignment did not restore the default value and the not-user-defined status", case)
+    # (b)
+    s = cc.Schema()
+    s.node.port = cc.IntField(default=1)
+    s.node.name = cc.StringField(default="outer")
+    s.node.node.port = cc.IntField(default=2)
+    s.node.node.name = cc.StringField(default="inner")
+    s.node.node.node.port = cc.IntField(default=3)
+    for asked, key, named, other in (("node", "port", "node.port", "node.node.port"), ("node", "node.port", "node.node.port", "node.port"),
+                                     ("node", "node.node.port", "node.node.node.port", "node.node.port"), ("node.node", "node.port", "node.node.node.port", "node.node.port"),
+                                     ("node.node", "port", "node.node.port", "node.port"), ("", "node.node.port", "node.node.port", "node.port")):
+        for action in ("status", "reset"):
+            cfg = s()
+            cfg["node.port"] = 10
+            cfg["node.node.port"] = 20
+            cfg["node.node.node.port"] = 30
+            if action == "status":
+                cc.reset_value(cfg, named)            # exactly the named one is at its default
+            sub = cfg[asked] if asked else cfg
+            case = {"stream": "status-corners", "what": "same-name-child", "asked_through": asked or "(root)", "key": key, "action": action}
+            res.case(stable(case), kind="status-corners:same-name-child")
+            try:
+                if action == "status":
+                    got = cc.is_value_defined(sub, key)
+                    if got is not False:
+                        res.violate("C12:status-wrong-field", "is_value_defined asked through a sub-configuration reports the status of another field than the one its key names",
+                                    dict(case, reported=got))
+                else:
+                    before_other = cfg[other]
+                    cc.reset_value(sub, key)
+                    default = {"node.port": 1, "node.node.port": 2, "node.node.node.port": 3}[named]
+                    if cfg[named] != default or cc.is_value_defined(cfg, named) or cfg[other] != before_other or not cc.is_value_defined(cfg, other):
+                        res.violate("C12:reset-wrong-field", "reset_value asked through a sub-configuration did not reset exactly the field its key names",
+                                    dict(case, named=[named, cfg[named], cc.is_value_defined(cfg, named)], other=[other, cfg[other], cc.is_value_defined(cfg, other)]))
+            except Exception as e:  # noqa
+                res.violate("C12:reset-wrong-field", "status / reset through a sub-configuration raised %s" % type(e).__name__, dict(case, error=str(e)[:100]))
+    # (c)
+    item = cc.Schema()
+    item.pin = cc.ChallengeField("sha256", default="0000")
+    s = cc.Schema()
+    s.pin = cc.ChallengeField("sha256", default="0000")
+    s.sub.pin = cc.ChallengeField("md5", default="0000")
+    s.count = cc.IntField(default=3)
+    s.tags = cc.ListField(cc.StringField(), default=lambda: ["a", "b"])
+    s.name = cc.StringField(default="n")
+    s.items = cc.ListField(item, default=lambda: [])
+    for how in ("assign-default-plaintext", "assign-default-bytes", "load-own-digest", "assign-equal-values", "load-equal-values", "list-item"):
+        cfg = s()
+        try:
+            if how == "assign-default-plaintext":
+                cfg.pin = "0000"
+                cfg.sub.pin = "0000"
+                keys = [(cfg, "pin"), (cfg, "sub.pin")]
+            elif how == "assign-default-bytes":
+                cfg.pin = b"0000"
+                keys = [(cfg, "pin")]
+            elif how == "load-own-digest":
+                cfg.load_tree({"pin": cfg.to_tree()["pin"], "sub": {"pin": cfg.to_tree()["sub"]["pin"]}})
+                keys = [(cfg, "pin"), (cfg, "sub.pin")]
+            elif how == "assign-equal-values":
+                cfg.count = 3
+                cfg.tags = ["a", "b"]
+                cfg.name = "n"
+                keys = [(cfg, "count"), (cfg, "tags"), (cfg, "name")]
+            elif how == "load-equal-values":
+                cfg.load_tree({"count": 3, "tags": ["a", "b"], "name": "n"})
+                keys = [(cfg, "count"), (cfg, "tags"), (cfg, "name")]
+            else:
+                cfg.items = [{}]
+                it = cfg.items[0]
+                it.load_tree({"pin": it.to_tree()["pin"]})
+                keys = [(it, "pin")]
+        except Exception as e:  # noqa
+            res.case(None, kind="status-corners:setup-raised:%s" % type(e).__name__)
+            continue
+        case = {"stream": "status-corners", "what": "given-what-the-default-describes", "how": how}
+        res.case(stable(case), kind="status-corners:equal-to-default")
+        for c, k in keys:
+            if not cc.is_value_defined(c, k):
+                res.violate("C12:assigned-not-defined", "a field was successfully given a value (one its default describes too) and is reported as not user-defined", dict(case, key=k))
+                continue
+            cc.reset_value(c, k)
+            if cc.is_value_defined(c, k):
+                res.violate("C12:reset", "after reset_value the field is still reported as user-defined (it held a value its default describes)", dict(case, key=k))
+
+
 def run(ctx, n_quick=250, n_thorough=8000):
     res = Result()
     P.run_stream(ctx, res, "C12", ctx.n(n_quick, n_thorough), oracle, gen_ops=gen_ops)
@@ -612,6 +756,7 @@ def run(ctx, n_quick=250, n_thorough=8000):
     guard(res, "C12", ctor_env_stream, ctx, res, ctx.n(120, 3000))
     guard(res, "C12", mutable_default_stream, ctx, res, ctx.n(40, 1500))
     guard(res, "C12", challenge_default_stream, ctx, res, ctx.n(20, 400))
+    guard(res, "C12", status_corners_stream, ctx, res)
     return res
 
 
